@@ -795,3 +795,14 @@ impl<V: Debug + Clone> AsVertex<V> for V {
         Some(self)
     }
 }
+
+/// Verification-only entry point (feature `trustfall_verif`): the per-variable accept/refuse
+/// decision of argument validation.
+#[cfg(feature = "trustfall_verif")]
+pub fn verif_validate_argument_type(
+    variable_name: &str,
+    variable_type: &Type,
+    argument_value: &FieldValue,
+) -> bool {
+    validate_argument_type(variable_name, variable_type, argument_value).is_ok()
+}
